@@ -53,7 +53,7 @@ OPNAME = {enums.Operation.CREATE: "create", enums.Operation.CREATE_KEY_PAIR: "cr
           enums.Operation.SET_ATTRIBUTE: "setAttribute", enums.Operation.MODIFY_ATTRIBUTE: "modifyAttribute",
           enums.Operation.DELETE_ATTRIBUTE: "deleteAttribute"}
 MUTATIONS = ["truncate", "inflate", "deflate", "type", "tag", "nest", "count", "version", "version0", "flip",
-             "trailing", "textlen", "cutvalue"]
+             "trailing", "textlen", "cutvalue", "emptystring", "emptystring"]
 KNOWN_VERSIONS = {(1, 0), (1, 1), (1, 2), (1, 3), (1, 4), (2, 0)}
 
 
